@@ -38,6 +38,22 @@ def btpuHandler : Handler := fun op j =>
         ("sent", jarr (sent.map jhex))])
     | .failed => some (jobj [("failed", Json.bool true), ("remain", remain),
         ("sent", jarr (sent.map jhex))])
+  | "btpu.build" => do
+    -- message sets as the scapy classes build them: [{type, hints: [[type, hex]], payload: hex}]
+    let ms ← getArr? j "msgs"
+    let ms ← ms.toList.mapM fun m => do
+      let t ← getNat? m "type"
+      let hs ← getArr? m "hints"
+      let hs ← hs.toList.mapM fun h =>
+        match h with
+        | .arr a => do
+          let ht ← asNat? (← a[0]?)
+          let hd ← asHex? (← a[1]?)
+          some (ht, hd)
+        | _ => none
+      let pl ← getHex? m "payload"
+      some (Btpu.mkMsg t hs pl)
+    some (jobj [("hex", jhex (Btpu.encSet ms)), ("exact", Json.bool (ms.all Btpu.Msg.exact))])
   | "btpu.decode" => do
     let b ← getHex? j "hex"
     match Btpu.decodeSet b with
